@@ -22,7 +22,21 @@ def proj_for(prop):
     return per_request(lambda d: f"{d['ret']} dt={d['dt']} trace={','.join(d['trace'])}")
 
 
-def run_suite(res, prop, tier, seed, n_quick, n_thorough, n_req=1, force=None, oracle=None, comp='request'):
+def late_answer_scenario(rng, reqs, kt):
+    """The transmission itself takes time; the (first) answer arrives late in the waiting period that starts AFTER it."""
+    rq = rng.choice([r for r in reqs if r.op in ('poll', 'set', 'mga')])
+    delay = rng.choice([250, 1800])
+    tx_dt = rng.choice([100, 200]) if delay == 250 else rng.choice([500, 900])
+    frames, _ = S.good_answer(rng, rq, kt, 'ack')
+    t_answer = delay - rng.choice([5, 20, tx_dt // 2])          # after the end of the transmission, still inside the period
+    evs = [(None, t_answer - 2), (frames[0], 1)]
+    if len(frames) == 2:
+        evs.append((frames[1], 1))
+    script = {'pending': [], 'attempts': [(True, evs)], 'idle': 13, 'drain': False, 'tx_dt': tx_dt, 'bad_cfg': ()}
+    return {'retries': rng.choice([0, 1]), 'delay': delay, 'script': script, 'reqs': [rq], 'plan': [('good', 1, False)]}
+
+
+def run_suite(res, prop, tier, seed, n_quick, n_thorough, n_req=1, force=None, oracle=None, comp='request', pair_every=0, late_every=0):
     mt = R.message_table()
     kt = R.key_tables()
     sk = ','.join(str(k) for k in kt['signed']) or '-'
@@ -35,7 +49,13 @@ def run_suite(res, prop, tier, seed, n_quick, n_thorough, n_req=1, force=None, o
     for k in range(n):
         if k % 50 == 0:
             reqs = S.all_requests(rng, mt, kt)
-        sc = S.scenario(rng, reqs, kt, n_req=n_req if isinstance(n_req, int) else rng.choice(n_req), force=force)
+        if pair_every and k % pair_every == 0:
+            pair = [r for r in reqs if r.label in ('UbxCfgPrtPoll', 'AppCfgPrtUsbPoll')]
+            sc = S.scenario(rng, pair, kt, n_req=rng.choice([2, 3]), force='good')
+        elif late_every and k % late_every == 0:
+            sc = late_answer_scenario(rng, reqs, kt)
+        else:
+            sc = S.scenario(rng, reqs, kt, n_req=n_req if isinstance(n_req, int) else rng.choice(n_req), force=force)
         out = S.run_scenario(sc)
         desc = S.describe(sc)
         cmd = S.model_cmd(sc, sk)
@@ -65,7 +85,8 @@ def drop_ties(res, cases):
     keep = []
     ties = 0
     for c, o in zip(cases, outs):
-        if ' TIE ' in o or o.endswith(' TIE'):
+        # with delay 0 the comparison is `t < t + 0.0`: exactly false in floating point as well, no ambiguity
+        if (' TIE ' in o or o.endswith(' TIE')) and not (isinstance(c.desc, dict) and c.desc.get('delay_ms') == 0):
             ties += 1
         else:
             keep.append(c)
@@ -75,4 +96,4 @@ def drop_ties(res, cases):
 
 def model_ties(cmds):
     outs = C.run_driver(cmds)
-    return [(' TIE ' in o or o.endswith(' TIE')) for o in outs]
+    return [(' TIE ' in o or o.endswith(' TIE')) and not c.split(' ')[3] == '0' for c, o in zip(cmds, outs)]
